@@ -93,7 +93,7 @@ Lemma tstep_lazy fx i s th s' th' :
   bulk s' = bulk s /\ cur s <= cur s' /\
   (lazy s' = lazy s \/
    (exists n, lazy s' = lazy s ++ repeat (cur s) n /\ cur s' = cur s) \/
-   lazy s' = snd (process_safe (bulk s) (minv s) (lazy s))).
+   (lazy s' = snd (process_safe (bulk s) (minv s) (lazy s)) /\ minv s' = minv s)).
 Proof.
   unfold tstep. intros H.
   repeat match type of H with
@@ -104,7 +104,7 @@ Proof.
   try (left; reflexivity);
   try (right; left; exists 1%nat; split; reflexivity);
   try (right; left; exists RETIRE_N; split; reflexivity);
-  try (right; right; match goal with E : process_safe _ _ _ = _ |- _ => rewrite E end; reflexivity).
+  try (right; right; split; reflexivity).
 Qed.
 
 Lemma firstn_app_len {A} (a b : list A) : firstn (length (a ++ b) - length b) (a ++ b) = a.
@@ -115,13 +115,14 @@ Qed.
 
 Lemma handed_back_cases fx i s th s' th' :
   tstep fx i s th = Some (s', th') ->
-  handed_back s s' = [] \/ handed_back s s' = fst (process_safe (bulk s) (minv s) (lazy s)).
+  handed_back s s' = [] \/
+  (handed_back s s' = fst (process_safe (bulk s) (minv s) (lazy s)) /\ minv s' = minv s).
 Proof.
-  intros H. destruct (tstep_lazy _ _ _ _ _ _ H) as (_ & _ & [E|[(n & E & _)|E]]); unfold handed_back; rewrite E.
+  intros H. destruct (tstep_lazy _ _ _ _ _ _ H) as (_ & _ & [E|[(n & E & _)|[E EM]]]); unfold handed_back; rewrite E.
   - left. rewrite Nat.sub_diag. reflexivity.
   - left. rewrite app_length. replace (length (lazy s) - (length (lazy s) + length (repeat (cur s) n)))%nat with 0%nat by lia.
     reflexivity.
-  - right. pose proof (process_safe_split (bulk s) (minv s) (lazy s)) as SP.
+  - right. split; [|exact EM]. pose proof (process_safe_split (bulk s) (minv s) (lazy s)) as SP.
     rewrite <- SP at 1 3. apply firstn_app_len.
 Qed.
 
@@ -142,7 +143,7 @@ Proof. induction a as [|x a IH]; cbn [app sorted_le]; [auto|]. intros [_ S]. aut
 
 Lemma tstep_linv fx i s th s' th' : tstep fx i s th = Some (s', th') -> linv s -> linv s'.
 Proof.
-  intros H [S F]. destruct (tstep_lazy _ _ _ _ _ _ H) as (_ & C & [E|[(n & E & C')|E]]); unfold linv; rewrite E.
+  intros H [S F]. destruct (tstep_lazy _ _ _ _ _ _ H) as (_ & C & [E|[(n & E & C')|[E _]]]); unfold linv; rewrite E.
   - split; [exact S|]. eapply Forall_impl; [|exact F]. cbn. intros; lia.
   - split; [apply sorted_le_app_repeat; assumption|]. rewrite C'. apply Forall_app. split; [exact F|].
     clear. induction n; cbn; constructor; auto; lia.
@@ -189,7 +190,7 @@ Proof.
   2:{ unfold handed_back in Ha. rewrite Nat.sub_diag in Ha. contradiction. }
   destruct (tstep true tid (sh st) th) as [[s' th']|] eqn:S.
   2:{ unfold handed_back in Ha. rewrite Nat.sub_diag in Ha. contradiction. }
-  cbn [sh] in Ha. destruct (handed_back_cases _ _ _ _ _ _ S) as [E|E]; rewrite E in Ha; [contradiction|].
+  cbn [sh] in Ha. destruct (handed_back_cases _ _ _ _ _ _ S) as [E|[E _]]; rewrite E in Ha; [contradiction|].
   eapply bulk_reclaim_safe_proof; eauto.
 Qed.
 
@@ -207,28 +208,22 @@ Proof.
   2:{ unfold handed_back in Ha. rewrite Nat.sub_diag in Ha. contradiction. }
   destruct (tstep true tid (sh st) th) as [[s' th']|] eqn:S.
   2:{ unfold handed_back in Ha. rewrite Nat.sub_diag in Ha. contradiction. }
-  cbn [sh] in Ha. destruct (handed_back_cases _ _ _ _ _ _ S) as [E|E]; rewrite E in Ha; [contradiction|].
+  cbn [sh] in Ha. destruct (handed_back_cases _ _ _ _ _ _ S) as [E|[E EM]]; rewrite E in Ha; [contradiction|].
   apply process_safe_lt in Ha.
   assert (G' : ginv (St s' (upd (ths st) tid th'))).
   { eapply tstep_inv; eauto. apply reachb_inv. }
-  pose proof (ginv_min_le_live _ t G' Ht K) as [M _]. cbn [sh] in M.
   (* a freeing step does not move min_version *)
-  assert (minv s' = minv (sh st)).
-  { clear -S Ha. unfold tstep in S.
-    repeat match type of S with
-    | context [match ?x with _ => _ end] => destruct x eqn:?; try discriminate
-    end; injection S as <- _; try reflexivity.
-    all: cbn [set_lck set_cur set_min set_ar set_aw set_lazy set_mail lvl cur minv ar aw lck lazy mail bulk]; try reflexivity. }
+  pose proof (ginv_min_le_live _ t G' Ht K) as [M _]. cbn [sh] in M.
   lia.
 Qed.
 
 (* hypotheses are inhabited: a queue of 70 items, threshold 32, an old reader of version 2 alive *)
+Definition hb_prog : list op := [AcqW; RetireN; Drop 0; AcqW; Drop 0; AcqR; RetireN; ReclaimBulk].
 Example handed_back_nontrivial :
-  let progs := [[AcqR; RetireN; RetireN; AcqW; Drop 1; Reclaim]; [AcqR; Drop 0; ReclaimBulk]] in
-  let sched := (repeat 0 30 ++ repeat 1 20)%nat in
-  exists st, st = run true sched (initb 4 32 progs) /\ nlen (lazy (sh st)) = 80 /\ minv (sh st) = 1 /\
-             nlen (live st) = 1.
-Proof. eexists. split; [reflexivity|]. vm_compute. auto. Qed.
+  let st := run true (repeat 0%nat 36) (initb 4 32 [hb_prog]) in
+  live st = [Tok KR 4 3] /\ minv (sh st) = 3 /\ nlen (lazy (sh st)) = 80 /\
+  handed_back (sh st) (sh (step true st 0)) = repeat 2 32.
+Proof. vm_compute. auto. Qed.
 Example process_safe_example :
   process_safe 2 10 [1; 2; 3; 11; 4] = ([1; 2], [3; 11; 4]) /\
   process_safe 0 10 [1; 2; 3] = ([1], [2; 3]) /\
